@@ -414,27 +414,58 @@ Qed.
 
 (* ================================================================================================ *)
 (* nucleation terms under a failing driving-force calculation *)
-Lemma nucStep_repaired Rmin minDens dtprev prev o :
-  exists s', nucStep Rops true Rmin minDens dtprev prev o = Ok s' /\
+Lemma nucStep_repaired zeroed Rmin minDens dtprev prev o :
+  exists s', nucStep Rops true zeroed Rmin minDens dtprev prev o = Ok s' /\
     (o_df Rops o = None -> s' = prev) /\
     (0 <= Rmin -> 0 <= n_Rcrit Rops prev -> 0 <= n_Rcrit Rops s') /\
     (0 <= n_rate Rops prev -> 0 <= o_rate Rops o -> 0 <= n_rate Rops s').
 Proof.
   unfold nucStep. destruct (o_df Rops o) as [dG|].
   - destruct (ltb Rops dG (zero Rops)) eqn:E1.
-    + eexists; split; [reflexivity|]. cbn [n_Rcrit n_rate]. repeat split; auto; discriminate.
+    + eexists; split; [reflexivity|]. destruct zeroed; cbn [n_Rcrit n_rate]; Rnorm; repeat split; auto; try discriminate; intros; lra.
     + destruct (eqb Rops (o_beta Rops o) (zero Rops)) eqn:E2.
-      * eexists; split; [reflexivity|]. cbn [n_Rcrit n_rate]. repeat split; auto; discriminate.
+      * eexists; split; [reflexivity|]. destruct zeroed; cbn [n_Rcrit n_rate]; Rnorm; (split; [discriminate|]); (split; [|intros; auto; lra]); auto.
+        intros HR _. destruct (Rltb 0 dG); [|lra]. unfold maxT. Rnorm.
+        destruct (Rltb (o_Rprop Rops o) Rmin) eqn:E3; Rbool; lra.
       * eexists; split; [reflexivity|]. cbn [n_Rcrit n_rate]. split; [discriminate|]. split; [|auto].
         intros HR _. Rnorm. destruct (Rltb 0 dG); [|lra]. unfold maxT. Rnorm.
         destruct (Rltb (o_Rprop Rops o) Rmin) eqn:E3; Rbool; lra.
   - eexists; split; [reflexivity|]. repeat split; auto.
 Qed.
 
-Lemma nucStep_unrepaired_refuted : exists Rmin minDens dtprev prev o,
-  nucStep Rops false Rmin minDens dtprev prev o = Err ErrType.
+Lemma nucStep_unrepaired_refuted : exists zeroed Rmin minDens dtprev prev o,
+  nucStep Rops false zeroed Rmin minDens dtprev prev o = Err ErrType.
 Proof.
-  exists 0, 0, 0, (mkN Rops 0 0 0 0 0 0), (mkNO Rops None 0 0 0 0 0). reflexivity.
+  exists true, 0, 0, 0, (mkN Rops 0 0 0 0 0 0), (mkNO Rops None 0 0 0 0 0). reflexivity.
+Qed.
+
+(* a driving force that WAS calculated and is negative, or a zero impingement rate: nothing nucleates - the recorded
+   rate and radius are 0 whatever the previous step recorded; with a negative driving force there is no barrier either *)
+Lemma nucStep_negative_zero rep Rmin minDens dtprev prev o dG : o_df Rops o = Some dG -> dG < 0 ->
+  nucStep Rops rep true Rmin minDens dtprev prev o = Ok (mkN Rops dG 0 0 0 0 0).
+Proof.
+  intros Hd Hn. unfold nucStep. rewrite Hd. Rnorm.
+  assert (E : Rltb dG 0 = true) by (apply Rltb_true; exact Hn). rewrite E. reflexivity.
+Qed.
+
+Lemma nucStep_no_impingement_zero rep Rmin minDens dtprev prev o dG : o_df Rops o = Some dG -> o_beta Rops o = 0 ->
+  exists s', nucStep Rops rep true Rmin minDens dtprev prev o = Ok s' /\
+             n_rate Rops s' = 0 /\ n_Rnuc Rops s' = 0 /\ n_beta Rops s' = 0.
+Proof.
+  intros Hd Hb. unfold nucStep. rewrite Hd, Hb. Rnorm.
+  assert (E : Reqb 0 0 = true) by (apply Reqb_true; reflexivity). rewrite E.
+  destruct (Rltb dG 0); eexists; (split; [reflexivity|]); cbn [n_rate n_Rnuc n_beta]; auto.
+Qed.
+
+(* before that repair the previous (positive) rate and radius stayed in force under a negative driving force *)
+Lemma nucStep_stale_refuted : exists rep Rmin minDens dtprev prev o dG s',
+  o_df Rops o = Some dG /\ dG < 0 /\ nucStep Rops rep false Rmin minDens dtprev prev o = Ok s' /\
+  0 < n_rate Rops s' /\ 0 < n_Rnuc Rops s'.
+Proof.
+  exists true, 0, 0, 0, (mkN Rops 1 1 1 1 1 1), (mkNO Rops (Some (-1)) 0 0 0 0 0), (-1), (mkN Rops (-1) 1 1 1 1 1).
+  split; [reflexivity|]. split; [lra|]. split.
+  - unfold nucStep. cbn [o_df]. Rnorm. assert (E : Rltb (-1) 0 = true) by (apply Rltb_true; lra). rewrite E. reflexivity.
+  - cbn [n_rate n_Rnuc]. split; lra.
 Qed.
 
 (* ---- growth under a failing growth calculation ------------------------------------------------------- *)
